@@ -169,6 +169,9 @@ func inlineNewHelpers(repo string) inlineResult {
 					if n == 0 {
 						out, n = inlineFile(p, f, src, &uniq, counts)
 					}
+					if n == 0 {
+						out, n = splitLocalStructs(p, f, src, counts)
+					}
 					if n > 0 {
 						res.Overlay[path] = out
 						changed = true
@@ -1756,4 +1759,230 @@ func methodValuesToClosures(p *packages.Package, f *ast.File, src []byte) ([]byt
 		return src, 0
 	}
 	return applyEdits(src, edits), len(edits)
+}
+
+// splitLocalStructs (scalar replacement): a local variable of struct type that is only ever used field by field —
+// `var top struct{ overall, avail *endpoint }` … `top.avail = e` … `top.avail.priority` — is replaced by one local
+// variable per field. Nothing can observe the difference: the variable's address is never taken as a whole, it is never
+// copied, passed, returned, compared or captured as a whole, and it has no methods called on it. go/ssa keeps such a
+// struct in memory (field addresses), which hides loop-carried values from the rules; separate locals become registers.
+func splitLocalStructs(p *packages.Package, f *ast.File, src []byte, counts map[string]int) ([]byte, int) {
+	fset := p.Fset
+	off := func(pos token.Pos) int { return fset.Position(pos).Offset }
+	text := func(n ast.Node) string { return string(src[off(n.Pos()):off(n.End())]) }
+	info := p.TypesInfo
+	// local package names of this file
+	local := map[string]string{}
+	for _, im := range f.Imports {
+		path := strings.Trim(im.Path.Value, `"`)
+		name := ""
+		if im.Name != nil {
+			name = im.Name.Name
+		} else if pk := p.Imports[path]; pk != nil {
+			name = pk.Name
+		}
+		if name != "" && name != "_" && name != "." {
+			local[path] = name
+		}
+	}
+	typeOK := true
+	qual := func(pk *types.Package) string {
+		if pk == p.Types {
+			return ""
+		}
+		if n, ok := local[pk.Path()]; ok {
+			return n
+		}
+		typeOK = false
+		return pk.Name()
+	}
+	// candidates: declaration statement → variable
+	type cand struct {
+		obj   *types.Var
+		st    *types.Struct
+		stmt  ast.Stmt
+		lit   *ast.CompositeLit
+		name  string
+		bad   bool
+		uses  []*ast.SelectorExpr
+		nuses int
+	}
+	cands := map[*types.Var]*cand{}
+	consider := func(id *ast.Ident, stmt ast.Stmt, val ast.Expr) {
+		obj, _ := info.Defs[id].(*types.Var)
+		if obj == nil || obj.Parent() == nil || obj.Parent() == p.Types.Scope() || id.Name == "_" {
+			return
+		}
+		st, ok := obj.Type().Underlying().(*types.Struct)
+		if !ok || st.NumFields() == 0 || st.NumFields() > 8 {
+			return
+		}
+		for i := 0; i < st.NumFields(); i++ {
+			if st.Field(i).Embedded() || st.Field(i).Name() == "_" {
+				return
+			}
+		}
+		var lit *ast.CompositeLit
+		if val != nil {
+			cl, isLit := val.(*ast.CompositeLit)
+			if !isLit {
+				return
+			}
+			if _, isStruct := info.TypeOf(cl).Underlying().(*types.Struct); !isStruct {
+				return
+			}
+			lit = cl
+		}
+		cands[obj] = &cand{obj: obj, st: st, stmt: stmt, lit: lit, name: id.Name}
+	}
+	ast.Inspect(f, func(n ast.Node) bool {
+		switch x := n.(type) {
+		case *ast.DeclStmt:
+			gd, ok := x.Decl.(*ast.GenDecl)
+			if !ok || gd.Tok != token.VAR || len(gd.Specs) != 1 {
+				return true
+			}
+			vs := gd.Specs[0].(*ast.ValueSpec)
+			if len(vs.Names) != 1 || len(vs.Values) > 1 {
+				return true
+			}
+			var val ast.Expr
+			if len(vs.Values) == 1 {
+				val = vs.Values[0]
+			}
+			consider(vs.Names[0], x, val)
+		case *ast.AssignStmt:
+			if x.Tok == token.DEFINE && len(x.Lhs) == 1 && len(x.Rhs) == 1 {
+				if id, ok := x.Lhs[0].(*ast.Ident); ok {
+					consider(id, x, x.Rhs[0])
+				}
+			}
+		}
+		return true
+	})
+	if len(cands) == 0 {
+		return src, 0
+	}
+	// every use must be the operand of a direct field selection
+	var stack []ast.Node
+	ast.Inspect(f, func(n ast.Node) bool {
+		if n == nil {
+			stack = stack[:len(stack)-1]
+			return true
+		}
+		stack = append(stack, n)
+		id, ok := n.(*ast.Ident)
+		if !ok {
+			return true
+		}
+		obj, _ := info.Uses[id].(*types.Var)
+		c := cands[obj]
+		if c == nil {
+			return true
+		}
+		c.nuses++
+		if len(stack) < 2 {
+			c.bad = true
+			return true
+		}
+		se, isSel := stack[len(stack)-2].(*ast.SelectorExpr)
+		if !isSel || se.X != ast.Expr(id) {
+			c.bad = true
+			return true
+		}
+		sel := info.Selections[se]
+		if sel == nil || sel.Kind() != types.FieldVal || len(sel.Index()) != 1 {
+			c.bad = true
+			return true
+		}
+		c.uses = append(c.uses, se)
+		return true
+	})
+	var edits []edit
+	n := 0
+	var ordered []*cand
+	for _, c := range cands {
+		ordered = append(ordered, c)
+	}
+	sort.Slice(ordered, func(i, j int) bool { return ordered[i].stmt.Pos() < ordered[j].stmt.Pos() })
+	for _, c := range ordered {
+		if c.bad || c.nuses == 0 || n > 0 {
+			continue // one variable per round: edits of two variables could nest
+		}
+		// the literal must not mention the variable's own name (shadowing) and must be keyed or positional-complete
+		vals := make([]string, c.st.NumFields())
+		order := []int{}
+		okLit := true
+		if c.lit != nil {
+			ast.Inspect(c.lit, func(nd ast.Node) bool {
+				if id, ok := nd.(*ast.Ident); ok && id.Name == c.name {
+					okLit = false
+				}
+				return true
+			})
+			for i, el := range c.lit.Elts {
+				if kv, isKV := el.(*ast.KeyValueExpr); isKV {
+					key, isId := kv.Key.(*ast.Ident)
+					idx := -1
+					for k := 0; isId && k < c.st.NumFields(); k++ {
+						if c.st.Field(k).Name() == key.Name {
+							idx = k
+						}
+					}
+					if idx < 0 {
+						okLit = false
+						break
+					}
+					vals[idx] = text(kv.Value)
+					order = append(order, idx)
+				} else {
+					if i >= c.st.NumFields() {
+						okLit = false
+						break
+					}
+					vals[i] = text(el)
+					order = append(order, i)
+				}
+			}
+		}
+		if !okLit {
+			continue
+		}
+		typeOK = true
+		names := make([]string, c.st.NumFields())
+		var decls []string
+		emitted := map[int]bool{}
+		emit := func(k int) {
+			if emitted[k] {
+				return
+			}
+			emitted[k] = true
+			names[k] = fmt.Sprintf("%s_%s__sroa", c.name, c.st.Field(k).Name())
+			d := fmt.Sprintf("var %s %s", names[k], types.TypeString(c.st.Field(k).Type(), qual))
+			if vals[k] != "" {
+				d += " = " + vals[k]
+			}
+			decls = append(decls, d, "_ = "+names[k])
+		}
+		for _, k := range order {
+			emit(k) // evaluation order of the literal's elements
+		}
+		for k := 0; k < c.st.NumFields(); k++ {
+			emit(k)
+		}
+		if !typeOK {
+			continue
+		}
+		edits = append(edits, edit{off(c.stmt.Pos()), off(c.stmt.End()), strings.Join(decls, "; ")})
+		for _, se := range c.uses {
+			k := info.Selections[se].Index()[0]
+			edits = append(edits, edit{off(se.Pos()), off(se.End()), names[k]})
+		}
+		counts["split local struct "+c.name]++
+		n++
+	}
+	if n == 0 {
+		return src, 0
+	}
+	return applyEdits(src, edits), n
 }
